@@ -372,7 +372,8 @@ def _render_tls_stream(ctx):
         for k in ("dirs", "sslServers", "sslDefaults", "certRefs"):
             fr[k + "_compared"] += r.get(k, 0)
         fr["scenarios_with_ssl_servers"] += r.get("sslServers", 0) > 0
-        hyp = bool(r.get("namesSafe")) and bool(r.get("portsOK")) and bool(r.get("noDupSsl"))
+        hyp = bool(r.get("namesSafe")) and bool(r.get("portsOK")) and bool(r.get("noDupSsl")) and bool(r.get("httpsFrag"))
+        fr["projections_in_fragment"] += bool(r.get("httpsFrag"))
         fr["inside_theorem_hypotheses"] += hyp
         fr["known_finding_region_dup_ssl_server"] += not r.get("noDupSsl")
         if not r.get("forgetOK"):
